@@ -75,7 +75,7 @@ func (g *mdGen) inline(block string, maxParts int) string {
 		w := g.word()
 		t := mdTok{tok: w, block: block}
 		switch k := r.Intn(14); {
-		case k < 5:
+		case k < 3:
 			sb.WriteString(w)
 		case k == 5:
 			t.em = true
@@ -118,6 +118,11 @@ func (g *mdGen) inline(block string, maxParts int) string {
 			t.math = true
 			sb.WriteString("$" + w + "$")
 			g.use("inline-math")
+		case k == 4 || k == 3:
+			// span tree: formatting spans of different kinds nested in each other with text before, between and after the inner spans
+			g.toks = append(g.toks, g.span(&sb, block, 0, mdTok{block: block})...)
+			g.use("span-tree")
+			continue
 		case k == 12:
 			// emphasis around a code span
 			t.em, t.code = true, true
@@ -129,6 +134,83 @@ func (g *mdGen) inline(block string, maxParts int) string {
 		g.toks = append(g.toks, t)
 	}
 	return sb.String()
+}
+
+// span writes one formatting span (emphasis, strong, strike-through or link) whose content is a sequence of words, code spans and
+// spans of other kinds; the delimiter character alternates with the depth so that delimiter runs stay unambiguous. The returned
+// tokens carry the union of the formats of all enclosing spans.
+func (g *mdGen) span(sb *strings.Builder, block string, depth int, outer mdTok) []mdTok {
+	r := g.r
+	var kinds []string
+	if !outer.em {
+		kinds = append(kinds, "em")
+	}
+	if !outer.strong {
+		kinds = append(kinds, "strong")
+	}
+	if !outer.strike && g.gfm {
+		kinds = append(kinds, "strike")
+	}
+	if !outer.link {
+		kinds = append(kinds, "link")
+	}
+	kind := kinds[r.Intn(len(kinds))]
+	in := outer
+	open, close := "", ""
+	ch := []string{"*", "_"}[depth%2]
+	switch kind {
+	case "em":
+		in.em = true
+		open, close = ch, ch
+	case "strong":
+		in.strong = true
+		open, close = ch+ch, ch+ch
+	case "strike":
+		in.strike = true
+		open, close = "~~", "~~"
+	case "link":
+		in.link = true
+		open, close = "[", fmt.Sprintf("](http://example.com/l%d)", g.n)
+	}
+	var toks []mdTok
+	sb.WriteString(open)
+	n := r.Range(1, 3)
+	hasInner := false
+	for i := 0; i < n; i++ {
+		if i > 0 {
+			sb.WriteString(" ")
+		}
+		switch k := r.Intn(6); {
+		case k < 2 && depth < 2 && len(kinds) > 1:
+			toks = append(toks, g.span(sb, block, depth+1, in)...)
+			hasInner = true
+		case k == 2:
+			w := g.word()
+			t := in
+			t.tok, t.code = w, true
+			sb.WriteString("`" + w + "`")
+			toks = append(toks, t)
+		default:
+			w := g.word()
+			t := in
+			t.tok = w
+			sb.WriteString(w)
+			toks = append(toks, t)
+		}
+	}
+	if hasInner {
+		g.use("span-tree-nested")
+		if r.Bool() {
+			// text of the outer span after the inner one: it carries the outer formats only
+			w := g.word()
+			t := in
+			t.tok = w
+			sb.WriteString(" " + w)
+			toks = append(toks, t)
+		}
+	}
+	sb.WriteString(close)
+	return toks
 }
 
 func (g *mdGen) list(depth int, ordered bool) string {
@@ -218,7 +300,7 @@ func (g *mdGen) document() string {
 			sb.WriteString("---\n\n")
 			g.use("thematic-break")
 		case k == 10 && g.gfm:
-			cols, rows := r.Range(1, 4), r.Range(1, 3)
+			cols, rows := r.Range(1, 4), r.Range(0, 3) // rows = 0: a table that consists of its header row only
 			t := mdTable{}
 			var hdr, sep []string
 			var hrow []string
